@@ -249,7 +249,7 @@ func vcrEntries(h *harness) []*entry {
 			var firstErr error
 			for _, idx := range []string{"5", "0", "131071", "131072", "-1", "99999999999999999999"} {
 				err := sl.Verify(subjectVCFor(url, idx))
-				if idx == "0" && err != nil && !errors.Is(err, types.ErrRevoked) {
+				if idx == "0" && err != nil && !errors.Is(err, types.ErrRevoked) && !errors.Is(err, revocation.ErrIndexNotInBitstring) {
 					firstErr = err // the other indexes are hostile values of the credential under verification, exercised but not judged
 				}
 			}
